@@ -221,6 +221,10 @@ class GcodeHandlers(object):
             more Gcode commands to execute instead or IGNORE_GCODE_CMD to prevent processing.
         """
         gcode = gcode.upper()
+        if (gcode[1:].isdigit()):
+            # OctoPrint reports the code as it is spelled in the command ("G01", "M0117"); the
+            # handlers and the configured extended codes use the spelling without leading zeros
+            gcode = gcode[0] + str(int(gcode[1:]))
 
         self.state.numCommands += 1
         method = getattr(self, "_handle_" + gcode, self.state.processExtendedGcode)
